@@ -189,3 +189,41 @@ pub fn generate(line: &str) -> String {
     });
     r.unwrap_or_else(|m| format!("PANIC {}", hex(&m)))
 }
+
+/// the checked-in bootstrapped meta-parser. request: `<rule> <input-hex>`; reply in the vm format
+pub fn meta(line: &str) -> String {
+    let (rule, inp) = line.split_once(' ').unwrap();
+    let input = unhex(inp.trim());
+    let rule = rule.to_string();
+    let r = guarded(move || {
+        let r = match pest_meta::parser::Rule::all_rules().iter().find(|r| format!("{r:?}") == rule) {
+            Some(r) => *r,
+            None => return "NORULE".to_string(),
+        };
+        fmt_result_dbg(pest_meta::parser::parse(r, &input))
+    });
+    r.unwrap_or_else(|m| format!("PANIC {}", m.replace('\n', " ")))
+}
+
+pub fn fmt_result_dbg<R: pest::RuleType>(r: Result<pest::iterators::Pairs<'_, R>, pest::error::Error<R>>) -> String {
+    use pest::error::{ErrorVariant, InputLocation};
+    match r {
+        Ok(pairs) => {
+            let toks: Vec<String> = pairs.clone().tokens().map(|t| match t {
+                pest::Token::Start { rule, pos } => format!("S{rule:?}@{}", pos.pos()),
+                pest::Token::End { rule, pos } => format!("E{rule:?}@{}", pos.pos()),
+            }).collect();
+            let tags: Vec<String> = pairs.flatten().map(|p| p.as_node_tag().map(|t| hex(t)).unwrap_or("-".into())).collect();
+            format!("OK {} tags={}", toks.join(","), tags.join(","))
+        }
+        Err(e) => {
+            let loc = match e.location { InputLocation::Pos(p) => format!("{p}"), InputLocation::Span((a, b)) => format!("{a}-{b}") };
+            let l = |v: &Vec<R>| v.iter().map(|x| format!("{x:?}")).collect::<Vec<_>>().join(",");
+            let var = match &e.variant {
+                ErrorVariant::ParsingError { positives, negatives } => format!("P[{}]N[{}]", l(positives), l(negatives)),
+                ErrorVariant::CustomError { message } => format!("C[{}]", message),
+            };
+            format!("ERR at={loc} lc=- {var}")
+        }
+    }
+}
